@@ -15,6 +15,7 @@ MC_CoeffChoices == {3}
 MC_RandChoices == {1}
 MC_Msgs == {[k \in 1..70 |-> k]}
 MC_MaxExtra == 1
+MC_ListOrders == {"asc","desc"}
 MC_EMIT == TRUE
 
 ====
